@@ -362,4 +362,33 @@ CHECKS = {
         "note": "Volumes of at most 700 voxels; the downscaler itself is "
                 "C07's business.",
     },
+    "C14": {
+        "engine": "E-DEV", "level": "model_checking",
+        "technique": "deviation-bounded exploration over an in-process HTTP "
+                     "transport: every request of a fetch/exists history x "
+                     "every answer of the fault menu (bound 1, 2 in "
+                     "thorough); 0-deviation equivalence with the local "
+                     "accessor",
+        "text": "Datasets written by the real file accessors (plain flat "
+                "gzip / flat / deep behind the documented rewrite; sharded "
+                "28 bit triples x raw/gzip x 2 grids, as .shard files and "
+                "as legacy .index/.data pairs) are served by a static-file "
+                "model of docs/serving-data.rst through a requests adapter. "
+                "0 deviations: every chunk, the info, file_exists and a "
+                "missing chunk through 4 URL spellings must equal the local "
+                "accessor's result, and dispatch to the sharded reader must "
+                "happen exactly when every scale declares sharding (8 info "
+                "variants incl. malformed/missing). Deviations: each "
+                "request of the history is answered with each menu entry "
+                "(404/403/500/503, Range ignored, short/long replies, "
+                "empty body, connection error, timeout, broken mid-body); "
+                "every operation must return the fault-free bytes or raise "
+                "(DataAccessError for plain datasets), never empty, partial "
+                "or other bytes, never False from file_exists on a 5xx. "
+                "Replayed prefixes must match the recording (hard error "
+                "otherwise).",
+        "note": "The socket, TLS, proxies and redirects are below the seam; "
+                "undetectable lies of a server (a different complete file) "
+                "are not in the menu.",
+    },
 }
